@@ -51,10 +51,18 @@ META = {
                   '`*`, `?` and literals only.  Tasks whose clean behaviour is invisible (no `clean`, or `clean: True` '
                   'with no existing target) cannot be observed and are excluded from the observed order, as in the model.',
     'rule': 'case = task table (1-9 tasks, groups with sub-tasks, task_dep/setup edges from a random topological order, '
-            'sometimes a cycle) + argv + default_tasks + target tree + backend; non-trivial = accepted, at least two tasks '
+            'sometimes a cycle; literal names with [ ] ?) + clean = True | list of 1-3 actions of many shapes + argv + '
+            'default_tasks + target tree with symbolic links + backend; non-trivial = accepted, at least two tasks '
             'visibly cleaned and at least one dependency edge between two cleaned tasks; distinct = distinct canonical case',
     'assumptions': ['a generated `clean` is `True` or a list of 1-3 actions (python callable with / without a `dryrun` '
                     'parameter, shell command); a dryrun-aware callable told dryrun=True does not touch the tree',
+                    'python clean actions come as def / **kwargs / *args / defaulted parameter / functools.partial / callable '
+                    'object, with and without a parameter named `dryrun`',
+                    'targets may be symbolic links (to files inside / outside the tree, to directories that cannot become '
+                    'empty, broken); a target link to an EMPTY directory is not generated: the code calls os.rmdir on the link '
+                    'and dies with NotADirectoryError (model: event `crash`; theorem no_links_no_crash); no target path runs '
+                    'through a linked directory; clean actions never touch a link',
+                    'task names may contain the fnmatch metacharacters [ ] ? ! (only `*` makes an argument a pattern)',
                     'targets are normalised relative paths without trailing slash; two tasks never share a target '
                     '(TaskControl rejects that)',
                     'patterns use only `*`, `?` and literal characters',
